@@ -158,7 +158,7 @@ def vcurve_float(y, w, llas, p=None):
     step = llas[1] - llas[0]
     v = [math.hypot(fits[i + 1] - fits[i], pens[i + 1] - pens[i]) / (math.log(10) * step) for i in range(len(llas) - 1)]
     mids = [(llas[i] + llas[i + 1]) / 2 for i in range(len(llas) - 1)]
-    return v, mids
+    return v, (fits, pens)
 
 
 def gcv_float(y, w, llas):
